@@ -193,8 +193,14 @@ func runWake(t *testing.T, tape *Tape, w *World, variant string, steps int, out 
 				r.ev("%s Publish %s key=%q attrs=%v -> %v", id, tn, key, attrs, code(err))
 				if err == nil {
 					mt := r.M.LiveTopic(tn)
-					mid := resp.(*pubsubpb.PublishResponse).MessageIds[0]
-					pendingOps = append(pendingOps, doneOp{S.TaskCommit(id), func() *Violation { r.M.Publish(mt, mid, data, attrs, key, t0, t1); return nil }})
+					mid, v := oneMessageID(resp)
+					pendingOps = append(pendingOps, doneOp{S.TaskCommit(id), func() *Violation {
+						if v != nil {
+							return v
+						}
+						r.M.Publish(mt, mid, data, attrs, key, t0, t1)
+						return nil
+					}})
 				}
 			})
 		case 2: // zero-deadline nack of ids spanning subscriptions, any order
@@ -568,7 +574,10 @@ func (r *Run) xPublish(ti int, attrs map[string]string, key string) *Violation {
 	if v := r.expectCode("C12", "Publish "+name, res, codes.OK); v != nil {
 		return v
 	}
-	id := resp.(*pubsubpb.PublishResponse).MessageIds[0]
+	id, v := oneMessageID(resp)
+	if v != nil {
+		return v
+	}
 	m := r.M.Publish(r.M.LiveTopic(name), id, data, attrs, key, res.t0, res.t1)
 	r.ev("Publish %s msg %d key=%q attrs=%v", name, m.Seq, key, attrs)
 	return nil
